@@ -9,7 +9,7 @@ import (
 )
 
 // hookCommits lists the commits of /repo that add the verif-guarded hooks.
-var hookCommits = []string{"25147e36604c2e1b424f70bb84a4eebcc088c7da"}
+var hookCommits = []string{"25147e36604c2e1b424f70bb84a4eebcc088c7da", "602363674978601f25d0cec6ea0013c176490252"}
 
 var notApplicable = map[string]string{}
 
